@@ -24,13 +24,14 @@ EXPLANATION = (
     "numpy coercion and never through a re-interpreting view (V8); input values reach the variables through the clipping property, and "
     "only the property setter writes the backing field (who-may-write); V9 - a shape lattice (dimensions 1, n = batch rows, r = sample points) is pushed "
     "through every kernel, Activated/Aggregated.membership and the seven defuzzifiers: a batch keeps its row dimension, meets the sampling "
-    "dimension only by column-against-row broadcasting, and every defuzzifier maps degrees (n,) to (n,) and () to ()"
+    "dimension only by column-against-row broadcasting, and every defuzzifier maps degrees (n,) to (n,) and () to (), also when the per-rule degrees have "
+    "mixed shapes; V10 - no np.vectorize without otypes over a function with integer and non-integer results, no np.piecewise with a bare condition array"
 )
 ASSUMPTIONS = [
     "numpy ufuncs, np.where and arithmetic operators are elementwise; numeric equality of the two modes is not decided",
     "values typed float (term parameters, ranges, thresholds) are single numbers",
 ]
-FLOORS = {"V1": 90, "V2": 1, "V3": 6, "V4": 2, "V5": 2, "V6": 40, "V8": 50, "V9": 200}
+FLOORS = {"V1": 90, "V2": 1, "V3": 6, "V4": 2, "V5": 2, "V6": 40, "V8": 50, "V9": 200, "V10": 2}
 
 SCALAR_ATTRS = {"value", "_value", "degree", "_degree", "activation_degree", "triggered"}
 SAFE_ATTRS = {"size", "ndim", "shape", "dtype", "name", "__name__", "enabled", "height", "lock_range", "lock_previous"}
@@ -385,6 +386,9 @@ def run(check: Check) -> None:
     input_values(check)
     fill_forward(check)
     shapes(check)
+    from .common import numpy_pitfalls
+
+    numpy_pitfalls(check, "V10")
     from .common import who_may_write
 
     who_may_write(check, "V3", "_value", {"Variable.value.setter"}, "a batch and its rows must be range-locked by the same code")
@@ -784,7 +788,11 @@ def shapes(check: Check) -> None:
         f = c.methods["defuzzify"]
         check.analysed(f)
         t = return_term(p, c, "defuzzify")
-        for d, want in (((), ()), (("n",), ("n",))):
+        for d, want in (((), ()), (("n",), ("n",)), ("mixed", ("n",))):
+            mixed = d == "mixed"
+            if mixed:
+                d = ("n",)
+
             def w_env_hook(t_: Term, se, d=d):
                 f_ = t_[1]
                 if f_[0] == "call" and t_[2]:  # <term>.__getattribute__(name)(w) / getattr(term, name)(w): elementwise in w
@@ -801,15 +809,18 @@ def shapes(check: Check) -> None:
                 return None
 
             se = ShapeEval(w_env, w_env_hook)
+            if mixed:
+                se.ragged = lambda x: x[0] == "attr" and x[2] in ("degree", "_degree")
+            tag = "mixed" if mixed else fmt(d)
             try:
                 got = se.ev(t)
             except ShapeError as ex:
-                check.violation("V9", f"{cname}.defuzzify/degrees{fmt(d)}", f"{cname}.defuzzify with degrees {fmt(d)}: {ex}", loc(f))
+                check.violation("V9", f"{cname}.defuzzify/degrees{tag}", f"{cname}.defuzzify with degrees {tag}: {ex}", loc(f))
                 continue
             if got == TOP:
                 undecided += 1
-                check.ok("V9", f"{cname}.defuzzify/degrees{fmt(d)}", f"{cname}.defuzzify with degrees {fmt(d)}: undecided ({se.unknown[:2]})", loc(f))
+                check.ok("V9", f"{cname}.defuzzify/degrees{tag}", f"{cname}.defuzzify with degrees {tag}: undecided ({se.unknown[:2]})", loc(f))
                 continue
-            check.require(got == want, "V9", f"{cname}.defuzzify/degrees{fmt(d)}", f"{cname}.defuzzify with degrees of shape {fmt(d)}: result has shape {fmt(got)}"
+            check.require(got == want, "V9", f"{cname}.defuzzify/degrees{tag}", f"{cname}.defuzzify with degrees of shape {tag}: result has shape {fmt(got)}"
                           + ("" if got == want else f", specified {fmt(want)}"), loc(f), exhaustive=True, cases=1)
     check.notes.append(f"V9: {undecided} shape case(s) undecided (outside the lattice)")
